@@ -72,7 +72,10 @@ reg("C18", ["c18_bytebuf.c"],
          "'setup': set/use/space on all argument combinations size 0..6 x used 0..7 x offset 0..8 x NULL; "
          "'history': seeded random histories on sizes 1..300 (and 255..66000) with operand lengths biased to the "
          "boundary (every second history carries zero octets). Requests that must be refused get no destination (NULL) or a poisoned one a third of the time "
-         "each. A "
+         "each. 'gigantic': one buffer of 2 GiB + 4 KiB mapped for the unit - add of all of it, rewind moving more "
+         "than 2^31 octets, one consume of 2^31 + 2048 octets, at-most calls asking for and returning more than "
+         "2^31 octets, content checked at probe positions around the 2^31 mark (not carried out, and not judged, "
+         "where the mapping is refused). A "
          "signature is a distinct reached state, a set-up argument tuple or a history; evaluations counts "
          "operations executed and compared with the list model.",
     exhaustive={"quick": "all reachable states of buffers of size 1..5 under all operations with operand lengths 0..size+1",
@@ -90,7 +93,7 @@ reg("C14", ["c14_varint.c"],
          "was used and drained before (offset = used = 1..7, exactly the maximum length free behind it: marks, memory "
          "image, read-back through a buffer source and through the buffer decoder) and read from a source whose driver "
          "is interrupted once (EINTR / EAGAIN) at one of its calls - a success must then carry value, length and octets "
-         "of the encoding; and decoded in place (the result variable is the memory the encoding lies in). A signature is (generator, type, "
+         "of the encoding; decoded in place (the result variable is the memory the encoding lies in); and decoded from a buffer whose fill mark lies strictly inside the encoding (offset < used < offset + length, the memory holding all of it). A signature is (generator, type, "
          "chunk); evaluations counts round trips and decoder input strings.",
     exhaustive={"quick": "all octet strings of length <= 7 over the 6-octet alphabet as decoder input",
                 "thorough": "all 2^32 values of u32 and s32; all octet strings of length <= 11 over the 6-octet alphabet"})
@@ -115,6 +118,9 @@ reg("C12", ["c12_slip.c"], level="fault_enumeration",
          "chunk it is handed on a lower sink). Chunk sinks take all, 1, 2 or 3 octets per call or write in pages of "
          "4 / 16 octets; contexts come from rfc1055_context_init() or from the header's static initialisers, "
          "alternately. "
+         "'longnoise': a frame broken by an invalid escape, then L octets without delimiter for every L within 8 of "
+         "256, 1024, 4096, 8192, 12288, 16384, 32768 and 65536 (four filler octets in turn), the delimiter and three "
+         "frames, in all 8 configurations: what follows the delimiter arrives as after any other prefix. "
          "A signature is a distinct string of length <= 4 or a (generator, unit) pair; evaluations counts "
          "(string, configuration, use) executions.",
     exhaustive={"quick": "all strings of length <= 7 over the 5-symbol alphabet in all three uses and 8 configurations",
@@ -294,7 +300,9 @@ reg("C04", ["c04_init.c"],
 
 reg("C05", ["c05_history.c"],
     rule="'history': " + RT_FAMILY + " with at least one register (every second unit without always-fail registers, "
-         "those also use sanitise); content loaded with constraint-satisfying values; 50-400 seeded steps of typed "
+         "those also use sanitise; on the others every second constrained register of an area whose defaults are "
+         "never loaded - skip-defaults, device without write access - names a default outside its own constraint); "
+         "content loaded with constraint-satisfying values; 50-400 seeded steps of typed "
          "set (operands biased to bound, bound +-1, default; 1/8 wrong type; NaN/inf), bit set / bit clear (single-bit "
          "and random masks, 1/6 wrong operand type, all register types), block write (3/4 starting inside or just "
          "before a register, words aimed at the bounds of overlapped registers), sanitise. 'corrupt': tables without "
@@ -385,7 +393,10 @@ reg("C09", ["c09_regp_safety.c"], level="fault_enumeration",
          "every octet position of the wire image of generated requests (followed by an intact frame), invalid SLIP "
          "escapes, TCP length prefixes that promise more than the source holds; 'stream': streams of up to 8 random / "
          "valid / mutated frames on block sizes sizeof(RPFrame)+1..+300 with optional allocation failure and channel "
-         "error, drained by the documented recv/process/free loop. After every round: allocator ledger (live set "
+         "error, drained by the documented recv/process/free loop; 'giant': TCP frames of 0x7ffffff0, 2^31, "
+         "2^31+1025 and 0xfffffff0 octets generated on the fly and delivered in full through a 1 MiB transfer window, "
+         "followed by an ordinary read request (receive-overflow reply, exact consumption, the request served). "
+         "After every round: allocator ledger (live set "
          "empty, no double or foreign free), room behind every pointer handed to the backend, replies decoded by the "
          "reference decoder. A signature is a unit; evaluations counts recv/process/free rounds.",
     assumptions=["early replies are judged leniently where the statement is silent: a receive-overflow or busy response "
